@@ -876,6 +876,7 @@ func report(e *Engine, prop, tier string, seed int, t0 time.Time, ts []target, r
 				fns[keyOfFunction(t.fn)] = t.fn
 			}
 		}
+		saveBaseSigs(e)
 		saveBaseNames(fns)
 		canon := map[string]bool{}
 		for _, n := range names {
